@@ -23,8 +23,27 @@ pub mod ssri {
         pub fn to_string(&self) -> (r: String) ensures r@ == algo_name(self@) { unimplemented!() }
     }
 
-    #[verifier::external_body]
-    pub struct Integrity { i: u8 }
+    impl ::std::cmp::PartialEq for Algorithm {
+        fn eq(&self, other: &Self) -> (r: bool) {
+            match (self, other) {
+                (Algorithm::Sha512, Algorithm::Sha512) => true,
+                (Algorithm::Sha384, Algorithm::Sha384) => true,
+                (Algorithm::Sha256, Algorithm::Sha256) => true,
+                (Algorithm::Sha1, Algorithm::Sha1) => true,
+                (Algorithm::Xxh3, Algorithm::Xxh3) => true,
+                _ => false,
+            }
+        }
+    }
+    impl vstd::std_specs::cmp::PartialEqSpecImpl for Algorithm {
+        open spec fn obeys_eq_spec() -> bool { true }
+        open spec fn eq_spec(&self, other: &Self) -> bool { *self == *other }
+    }
+    /// one `<algorithm>-<base64 digest>` element.  Its relation to the abstract view of the
+    /// whole Integrity is not specified (code that starts inspecting hashes gets no facts)
+    pub struct Hash { pub algorithm: Algorithm, pub digest: String }
+    /// the public `hashes` field exists as in ssri; the view is an uninterpreted function of it
+    pub struct Integrity { pub hashes: Vec<Hash> }
     impl View for Integrity { type V = SriV; uninterp spec fn view(&self) -> SriV; }
     impl Clone for Integrity {
         #[verifier::external_body]
@@ -46,6 +65,12 @@ pub mod ssri {
         #[verifier::external_body]
         pub fn from<B: crate::shims::bytes::BytesArg>(data: B) -> (r: Integrity)
             ensures r@ == digest_of(AlgoV::Sha256, data.bytes()), sri_wf(r@)
+        { unimplemented!() }
+        /// the strongest algorithm present (panics on an empty value, like `to_hex`)
+        #[verifier::external_body]
+        pub fn pick_algorithm(&self) -> (r: Algorithm)
+            requires sri_wf(self@)
+            ensures r@ == sri_algo(self@)
         { unimplemented!() }
         /// ssri: `pick_algorithm` indexes hashes[0] and `to_hex` unwraps a base64 decode:
         /// both panic unless the value is well-formed
